@@ -49,7 +49,7 @@ inline std::string gen_string(Rng& r, const GenOpts& o, bool key) {
 inline MVal gen_scalar(Rng& r, const GenOpts& o) {
     static const int64_t ints[] = {0, 1, -1, 2, 7, 10, 23, 24, 255, 256, -128, -129, 65535, 65536, 2147483647LL, -2147483648LL,
                                    4294967295LL, 4294967296LL, INT64_MAX, INT64_MIN, 1000000007LL, -42};
-    static const double dbls[] = {0.5, -0.5, 1.5, 3.25, 1e10, 1.0e-5, 123.456, -2.75, 6.02e23, 1e300, 2.2250738585072014e-308, 0.1};
+    static const double dbls[] = {0.5, -0.5, 1.5, 3.25, 1e10, 1.0e-5, 123.456, -2.75, 6.02e23, 1e300, 2.2250738585072014e-308, 0.1, 2.0, -7.0, 100.0};
     unsigned sel = (unsigned)r.below(12);
     switch (sel) {
     case 0: return MVal();
